@@ -155,6 +155,15 @@ func (m *moduleEngine) NewFunction(index wasm.Index) api.Function {
 	localIndex := index
 	if importedFnCount := m.module.Source.ImportFunctionCount; index < importedFnCount {
 		imported := &m.importedFunctions[index]
+		if src := imported.me.module.Source; src.IsHostModule {
+			// A host function that this module imports and re-exports: there is neither machine code nor an
+			// entry preamble to enter, the Go function is called directly on behalf of this module.
+			return &goFunctionCallEngine{
+				def:    src.FunctionDefinition(imported.indexInModule),
+				goFunc: src.CodeSection[imported.indexInModule].GoFunc,
+				module: m.module,
+			}
+		}
 		return imported.me.NewFunction(imported.indexInModule)
 	} else {
 		localIndex -= importedFnCount
